@@ -1641,7 +1641,7 @@ func runHistory(c *hx.Ctx, r *hx.Rng, idx, maxOps int, purge bool) error {
 }
 
 func Run(c *hx.Ctx) error {
-	c.Stats.Rule = "random histories on a real shard with its deleted-tsid index (writes in memory / flushed / compacted / out-of-order over versioned measurements from a real meta.Data catalogue plus two neighbour measurements; DROP SERIES by tag predicate selecting none / some / all; DROP MEASUREMENT with re-creation; physical purge; further writes incl. to dropped series; flush, compaction, merge, index flush interval, clean reopen, crash image); after every op on two measurements: one selection (random tag / field condition, group-by, direction, range), aggregate pushed down and from raw rows, one listing (series / tag keys / tag values / cardinality); a history is non-trivial when a drop selected a strict non-empty subset and a flush, compaction, drop measurement or restart followed; distinct by op-kind string"
+	c.Stats.Rule = "random histories on a real shard with its deleted-tsid index (writes in memory / flushed / compacted / out-of-order over versioned measurements from a real meta.Data catalogue plus two neighbour measurements; DROP SERIES by tag predicate selecting none / some / all; DROP MEASUREMENT with re-creation; physical purge; further writes incl. to dropped series; flush, compaction, merge, index flush interval, clean reopen, crash image); after every op on two measurements: one selection (random tag / field condition, group-by, direction, range), aggregate pushed down and from raw rows, one listing (series / tag keys / tag values / cardinality); a history is non-trivial when a drop selected a strict non-empty subset and a flush, compaction, drop measurement or restart followed; 35% of the shard histories are drop + purge rounds over several index parts (merges of index parts between and around the purges, restart at the end); after every op the parts of both index tables are listed; DROP MEASUREMENT races with a paused flush / out-of-order merge in 30% of the cases; every 8th history runs on a whole engine (two databases x two policies: drop measurement / retention policy / database, re-creation, restart; loaded set, directory tree and dumps after every op); distinct by op-kind string"
 	n := c.Budget(60, 1500)
 	// consecutive seeds must not give shifted copies of one stream (splitmix64 states of seed and
 	// seed+1 differ by the stream increment)
@@ -1650,6 +1650,13 @@ func Run(c *hx.Ctx) error {
 	for i := 0; i < n; i++ {
 		if i < len(directed) {
 			if err := runDirected(c, i, directed[i]); err != nil {
+				return err
+			}
+			continue
+		}
+		if i%8 == 3 {
+			// a history on a whole engine: the store side of drop measurement / retention policy / database (enginehist.go)
+			if err := runEngineHistory(c, hx.NewRng(r.U64()^(uint64(i)*0xA24BAED4963EE407)), i); err != nil {
 				return err
 			}
 			continue
